@@ -22,6 +22,7 @@ import (
 	"time"
 
 	"github.com/pojntfx/stfs/internal/logging"
+	"github.com/pojntfx/stfs/internal/suffix"
 	"github.com/pojntfx/stfs/pkg/cache"
 	"github.com/pojntfx/stfs/pkg/config"
 	"github.com/pojntfx/stfs/pkg/keys"
@@ -246,6 +247,26 @@ func batRoundTrip(t *testing.T) {
 		want["/f513.bin"] = batContent(100, 77)
 		if err := batWrite(a.fs, "/f513.bin", want["/f513.bin"]); err != nil {
 			t.Errorf("FAILING-INPUT: %s: rewriting /f513.bin: %v", c.label, err)
+		}
+		// a file whose own name ends with the codec suffix of this configuration, next to its sibling without it
+		if sfx, err := suffix.AddSuffix("", c.pipes.Compression, c.pipes.Encryption); err == nil && sfx != "" {
+			want["/plain"] = batContent(900, 41)
+			want["/keep"+sfx] = batContent(300, 43)
+			for _, w := range []struct {
+				name string
+				size int
+				seed byte
+			}{{"/plain", 900, 41}, {"/plain" + sfx, 900, 42}, {"/keep" + sfx, 300, 43}} {
+				if err := batWrite(a.fs, w.name, batContent(w.size, w.seed)); err != nil {
+					t.Errorf("FAILING-INPUT: %s: writing %s: %v", c.label, w.name, err)
+				}
+			}
+			if err := a.fs.Remove("/plain" + sfx); err != nil {
+				t.Errorf("FAILING-INPUT: %s: removing %s: %v", c.label, "/plain"+sfx, err)
+			}
+			if _, err := a.fs.Stat("/plain" + sfx); err == nil {
+				t.Errorf("FAILING-INPUT: %s: Remove(%q) left it in place", c.label, "/plain"+sfx)
+			}
 		}
 		for pass, inst := range []*batFS{a, nil} {
 			if inst == nil {
